@@ -437,7 +437,7 @@ def configs(rng, d, pow2, budget):
 def gen_cases(ctx):
     rng = ctx.rng
     cases = []
-    budget = ctx.scale(300, 4100)
+    budget = ctx.scale(300, 1300)
 
     def add(stream, e, box, form="L", exact=False, mono=False, cf=None, **kw):
         d = len(box)
@@ -454,13 +454,13 @@ def gen_cases(ctx):
             cf=[("direct", None, None), ("endpoints", None, None), ("subinterval", "direct", 3), ("subinterval", "endpoints", 3),
                 ("subinterval", "direct", 1), ("subinterval", "endpoints", 4)])
     # A. exact stream: integer boxes, + - * pow, power-of-two subdivision
-    for _ in range(ctx.scale(110, 2500)):
+    for _ in range(ctx.scale(110, 1100)):
         d = rng.choice([1, 2, 2, 3, 3, 4])
         e = gen_expr(rng, d, rng.choice([2, 3, 3, 4]), ["add", "sub", "mul", "mul", "pow"], [-3, -2, -1, 2, 3, 5])
         form = rng.choice(["L", "L", "V", "T"]) if d > 1 else rng.choice(["L", "V", "S"])
         add("exact", e, int_box(rng, d), form=form, exact=True)
     # B. general stream: dyadic boxes, division, exp, sqrt, any n_sub
-    n_b = ctx.scale(110, 2500)
+    n_b = ctx.scale(110, 1100)
     tries = 0
     while n_b > 0 and tries < 100000:
         tries += 1
@@ -476,7 +476,7 @@ def gen_cases(ctx):
         add("general", e, box, form=form)
         n_b -= 1
     # C. monotone by construction
-    for _ in range(ctx.scale(60, 1200)):
+    for _ in range(ctx.scale(60, 600)):
         d = rng.choice([1, 2, 3, 4])
         box = dyadic_box(rng, d, positive=rng.random() < 0.4)
         e = mono_expr(rng, d, box)
@@ -852,7 +852,7 @@ def oracle_case(ctx, rng, ci, c, results, captured):
         SD = R(("subinterval", "direct", n))
         SE = R(("subinterval", "endpoints", n))
         cfd, cfe = ("subinterval", "direct", n), ("subinterval", "endpoints", n)
-        lat = lattice(box, n, ctx.scale(700, 7000))
+        lat = lattice(box, n, ctx.scale(700, 2500))
         lvals = None
         if lat is not None:
             lv = [evq(e, p) for p in lat]
